@@ -8,6 +8,7 @@ import (
 
 	"github.com/ethereum/go-ethereum/accounts/abi"
 	"github.com/ethereum/go-ethereum/common"
+	"github.com/ethereum/go-ethereum/crypto"
 
 	"verif/harness/chain"
 )
@@ -89,4 +90,38 @@ func CompassUpdateBatch(cons Consensus, calls []LogicCallArgs, deadline, gas *bi
 
 func SubmitBatch(cons Consensus, token common.Address, args BatchArgs, batchID, deadline *big.Int, relayer common.Address, gas *big.Int) ([]byte, error) {
 	return Compass.Pack("submit_batch", cons, token, args, batchID, deadline, relayer, gas)
+}
+
+// BatchCheckpoint is the digest compass verifies signatures against for a token batch: keccak256 of the call data of
+// batch_call(address,(address[],uint256[]),uint256,bytes32,uint256,address,uint256). Written out from the compass
+// contract's definition; gas 0 stands for "no estimate elected yet" (the chain then signs a conservative 300000).
+func BatchCheckpoint(token common.Address, args BatchArgs, batchID *big.Int, compassID string, deadline *big.Int, relayer common.Address, gas *big.Int) ([]byte, error) {
+	mk := func(t string, comps []abi.ArgumentMarshaling) abi.Type {
+		ty, err := abi.NewType(t, "", comps)
+		if err != nil {
+			panic(err)
+		}
+		return ty
+	}
+	arguments := abi.Arguments{
+		{Type: mk("address", nil)},
+		{Type: mk("tuple", []abi.ArgumentMarshaling{{Name: "receiver", Type: "address[]"}, {Name: "amount", Type: "uint256[]"}})},
+		{Type: mk("uint256", nil)},
+		{Type: mk("bytes32", nil)},
+		{Type: mk("uint256", nil)},
+		{Type: mk("address", nil)},
+		{Type: mk("uint256", nil)},
+	}
+	var id [32]byte
+	copy(id[:], compassID)
+	g := new(big.Int).Set(gas)
+	if g.Sign() == 0 {
+		g.SetInt64(300000)
+	}
+	body, err := arguments.Pack(token, args, batchID, id, deadline, relayer, g)
+	if err != nil {
+		return nil, err
+	}
+	sel := crypto.Keccak256([]byte("batch_call(address,(address[],uint256[]),uint256,bytes32,uint256,address,uint256)"))[:4]
+	return crypto.Keccak256(append(sel, body...)), nil
 }
